@@ -62,13 +62,19 @@ def regenerate_facts() -> dict:
     spec2.loader.exec_module(px)
     steps = px.classify(repo)
     s_lean = px.render_lean(steps)
+    # the structural functions themselves, translated statement by statement: tools/py2lean.py -> Generated/Src.lean
+    spec3 = importlib.util.spec_from_file_location("pv_py2lean", VERIF / "tools" / "py2lean.py")
+    p2l = importlib.util.module_from_spec(spec3)
+    spec3.loader.exec_module(p2l)
+    src_lean, src_report = p2l.generate(repo)
     with BuildLock():
+        tr.write_if_changed(LEAN_DIR / "PvModel" / "Generated" / "Src.lean", src_lean)
         tr.write_if_changed(LEAN_DIR / "PvModel" / "Generated" / "Algos.lean", a_lean)
         tr.write_if_changed(LEAN_DIR / "PvModel" / "Generated" / "Core.lean", c_lean)
         tr.write_if_changed(LEAN_DIR / "PvModel" / "Generated" / "Steps.lean", s_lean)
         WORK.mkdir(exist_ok=True)
-        (WORK / "facts.json").write_text(json.dumps({"algos": algos, "core": core, "steps": steps}, indent=1))
-    return {"algos": algos, "core": core, "steps": steps}
+        (WORK / "facts.json").write_text(json.dumps({"algos": algos, "core": core, "steps": steps, "src": src_report}, indent=1))
+    return {"algos": algos, "core": core, "steps": steps, "src": src_report}
 
 
 def lake_build(targets: list[str], timeout=1800) -> tuple[bool, str]:
